@@ -19,10 +19,12 @@ CONSTANTS MaxMsgs,     \* turns per conversation
           Bases,       \* base configurations for AddMsg / Deviate: subset of {"default", "rich"}
           MaxDev,      \* configuration fields changed (0 = conversation family only)
           OnlyBases,   \* TRUE: build only the base conversations (configuration family)
-          DevAnywhere  \* TRUE: configuration changes and turns interleave freely (random walks)
+          DevAnywhere, \* TRUE: random-walk mode (-simulate): the request grows block by block and
+                       \* configuration changes interleave freely; only walks of WalkLen steps are exported
+          WalkLen
 
-VARIABLES ndev, lastd
-gvars == <<vars, ndev, lastd>>
+VARIABLES ndev, lastd, steps
+gvars == <<vars, ndev, lastd, steps>>
 
 UB == IF Alphabet = "small" THEN UserBlocksSmall ELSE UserBlocksFull
 AB == IF Alphabet = "small" THEN AsstBlocksSmall ELSE AsstBlocksFull
@@ -35,14 +37,15 @@ BaseCfg(b) == IF b = "rich" THEN RichCfg ELSE DefaultCfg
 
 GInit == /\ req \in {[msgs |-> <<>>, cfg |-> BaseCfg(b)] : b \in Bases}
          /\ res = NoRes /\ hres = NoH /\ act = "Gen" /\ dev = {}
-         /\ ndev = 0 /\ lastd = 0
+         /\ ndev = 0 /\ lastd = 0 /\ steps = 0
 
-AddMsg == /\ (ndev = 0 \/ DevAnywhere) /\ Len(req.msgs) < MaxMsgs
+AddMsg == /\ ~DevAnywhere /\ ndev = 0 /\ Len(req.msgs) < MaxMsgs
           /\ \E role \in RolesAt(Len(req.msgs) + 1) : \E m \in GMsgs(role) :
                 /\ req' = [req EXCEPT !.msgs = Append(@, m)]
                 /\ OnlyBases => \E bc \in {BaseConv1, BaseConv2} :
                                     /\ Len(bc) > Len(req.msgs)
                                     /\ SubSeq(bc, 1, Len(req.msgs) + 1) = Append(req.msgs, m)
+          /\ steps' = steps + 1
           /\ UNCHANGED <<res, hres, act, dev, ndev, lastd>>
 
 Deviate == /\ ndev < MaxDev
@@ -50,10 +53,26 @@ Deviate == /\ ndev < MaxDev
            /\ \E d \in (lastd + 1)..Len(DimNames) : \E v \in DimVals(DimNames[d]) \ {req.cfg[DimNames[d]]} :
                  /\ req' = [req EXCEPT !.cfg[DimNames[d]] = v]
                  /\ lastd' = d
-           /\ ndev' = ndev + 1
+           /\ ndev' = ndev + 1 /\ steps' = steps + 1
            /\ UNCHANGED <<res, hres, act, dev>>
 
-GNext == AddMsg \/ Deviate
+\* random-walk mode: small fan-out per step (one block at a time)
+NewMsg == /\ DevAnywhere /\ Len(req.msgs) < MaxMsgs
+          /\ \E role \in RolesAt(Len(req.msgs) + 1) :
+                \E m \in {[role |-> role, form |-> "blocks", blocks |-> <<b>>] : b \in (IF role = "user" THEN UB ELSE AB)}
+                          \cup {[role |-> role, form |-> "str", blocks |-> <<b>>] : b \in StrForms} :
+                   req' = [req EXCEPT !.msgs = Append(@, m)]
+          /\ steps' = steps + 1
+          /\ UNCHANGED <<res, hres, act, dev, ndev, lastd>>
+AddBlock == /\ DevAnywhere /\ Len(req.msgs) >= 1
+            /\ LET n == Len(req.msgs) last == req.msgs[n] IN
+                 /\ last.form = "blocks" /\ Len(last.blocks) < MaxBlocks
+                 /\ \E b \in (IF last.role = "user" THEN UB ELSE AB) :
+                       req' = [req EXCEPT !.msgs[n].blocks = Append(@, b)]
+            /\ steps' = steps + 1
+            /\ UNCHANGED <<res, hres, act, dev, ndev, lastd>>
+
+GNext == AddMsg \/ Deviate \/ NewMsg \/ AddBlock
 GSpec == GInit /\ [][GNext]_gvars
-GExport == PrintT(<<"SCN", ToJson(req)>>)
+GExport == (DevAnywhere => steps = WalkLen) => PrintT(<<"SCN", ToJson(req)>>)
 =============================================================================
